@@ -120,7 +120,9 @@ class FormulaParser:
             for index, token in enumerate(tokens):
                 new_tokens.append(token)
 
-                if type(token.tvalue) == str:
+                # String literals are data: a text starting with ':' or
+                # containing ':OFFSET' is not a range pointer.
+                if type(token.tvalue) == str and token.tsubtype != 'text':
 
                     # example -> :OFFSET( or simply :A10
                     if token.tvalue.startswith(':'):
